@@ -545,6 +545,14 @@ TGWrite(o) ==
           /\ BrokerProcess(cur, st)
           /\ tg' = [tg EXCEPT !.st = IF st = "rel" THEN "waitrel" ELSE "waitpub"]
           /\ UNCHANGED <<retryQ, nrbe, doneReq, lost, bc>>
+       \* DirectlyPublishQoS0 only, and fed by trace validation only (not in Outcomes): the packet was processed and its
+       \* acknowledgement is still unread when ANOTHER writer's packet -- a QoS 0 message written by the caller's goroutine --
+       \* ends the connection.  For the client: cutAfter of this request, then a direct write that fails.
+       \/ /\ o = "ackPending" /\ DirectQoS0 /\ ~qos0
+          /\ Observe(cur, st, g, TRUE)
+          /\ BrokerProcess(cur, st)
+          /\ tg' = [tg EXCEPT !.st = IF st = "rel" THEN "waitrel" ELSE "waitpub"]
+          /\ UNCHANGED <<retryQ, nrbe, doneReq, lost, bc, faults>>
        \/ /\ o = "dropReq" /\ RespTimeout /\ qos0    \* a QoS 0 message swallowed: nobody waits for anything
           /\ faults < MaxFaults /\ faults' = faults + 1
           /\ Observe(cur, st, g, TRUE)
